@@ -128,6 +128,70 @@ pub fn p1_registry(t: Transport, minors: Vec<u32>, variant: u8) -> Spec {
     }
 }
 
+/// P1b: a proxy being created while the owner destroys the service. Whatever the interleaving,
+/// the subscriber ends up either without a proxy (InvalidService) or with one whose event stream
+/// ends (the service is gone); it never waits forever.
+pub fn p1_proxy_vs_destroy(t: Transport, minors: Vec<u32>, variant: u8) -> Spec {
+    let m2 = minors.clone();
+    Spec {
+        name: "p1b-proxy-vs-destroy".into(),
+        params: serde_json::json!({"transport": format!("{t:?}"), "versions": minors, "variant": variant}),
+        f1_shape: false,
+        make: Box::new(move || {
+            let (id_tx, id_rx) = oneshot::channel::<ServiceId>();
+            let (go_tx, go_rx) = oneshot::channel::<()>();
+            let owner = app("owner", move |hs, _| {
+                Box::pin(async move {
+                    let h = hs[0].clone();
+                    drop(hs);
+                    let obj = es(h.create_object(ou(1)).await, "create object")?;
+                    let svc = es(obj.create_service(su(1), ServiceInfo::new(1)).await, "create service")?;
+                    let _ = id_tx.send(svc.id());
+                    let _ = go_rx.await;
+                    if variant & 1 == 0 {
+                        es(svc.destroy().await, "destroy service")?;
+                    } else {
+                        es(obj.destroy().await, "destroy object")?;
+                        drop(svc);
+                    }
+                    es(h.sync_broker().await, "sync")?;
+                    Ok(())
+                })
+            });
+            let sub_minor = m2[1 % m2.len()];
+            let sub = app("subscriber", move |hs, _| {
+                Box::pin(async move {
+                    let h = hs[1].clone();
+                    drop(hs);
+                    let sid = id_rx.await.map_err(|_| "owner gone".to_string())?;
+                    let _ = go_tx.send(());
+                    match h.create_proxy(sid).await {
+                        Err(Error::InvalidService) => {}
+                        Err(e) => return Err(format!("create_proxy: {e:?}")),
+                        Ok(mut p) => {
+                            if variant & 2 == 2 {
+                                // a subscription attempt on the way
+                                match p.subscribe(1).await {
+                                    Ok(()) | Err(Error::InvalidService) => {}
+                                    Err(e) => return Err(format!("subscribe: {e:?}")),
+                                }
+                            }
+                            // the service is (being) destroyed: from 1.18 on the stream must end
+                            // (older clients are not told about the destruction of a service)
+                            if sub_minor >= 18 && p.next_event().await.is_some() {
+                                return Err("an event from a service that never emitted".into());
+                            }
+                        }
+                    }
+                    es(h.sync_broker().await, "sync")?;
+                    Ok(())
+                })
+            });
+            (cfgs(2, t, &m2), vec![owner, sub])
+        }),
+    }
+}
+
 // ------------------------------------------------------------------------------------------------
 // P2: calls
 
